@@ -383,7 +383,9 @@ def _one_expression(run, expr, rng, thorough, nrep, cases, metas, stats, distinc
             has_mag = False
         for rep in range(nrep + (1 if has_mag else 0)):
             allmag = has_mag and rep == nrep       # every magnetic SLD of every component switched on, 2-D
-            dim = "2d" if (allmag or (oriented and rep % 3 == 2)) else "1d"
+            # (every expression is also evaluated on 2-D data, oriented or not: a component may define a 2-D function of
+            #  its own that is not a function of |q| - `line` does)
+            dim = "2d" if (allmag or rep % 3 == 2) else "1d"
             if dim == "1d":
                 q = [np.array([0.01, 0.05, 0.1, rng.uniform(0.001, 0.3)])]
             else:
